@@ -1,10 +1,10 @@
 CONSTANTS
  Copies = {"c1", "c2"}
- Confs <- ShapeConfs
+ Confs <- ShapeConfsGen
  MaxCloses = 4
  MaxOps = 2
  Eager = FALSE
 INIT GInit
 NEXT GNext
-INVARIANTS Emit
+INVARIANTS Emit TypeOK LocksExact MarkIsReach FallbackPresent
 CHECK_DEADLOCK FALSE
